@@ -218,6 +218,38 @@ func init() {
 		pcs = append(pcs, sharedDefinitionCases(c, "c04-shared-definitions")...)
 		// required names with characters that mean something to a format string, a template or a tag
 		pcs = append(pcs, requiredPunctuatedNames("c04-punctuated-names", false)...)
+		// allOf whose branches state `type` in some places only, in every ORDER (a bare {"required": […]} or a property-only
+		// branch first, the typed branch or the reference later, and the other way round; two or three branches)
+		{
+			base := func() M {
+				return M{"type": "object", "properties": M{"a": M{"type": "string"}, "x": M{"type": "string"}}, "required": []any{"a"}}
+			}
+			branchSets := map[string][]any{
+				"req-then-ref":        {M{"required": []any{"x"}}, M{"$ref": "#/$defs/Base"}},
+				"ref-then-req":        {M{"$ref": "#/$defs/Base"}, M{"required": []any{"x"}}},
+				"props-then-typed":    {M{"properties": M{"y": M{"type": "integer"}}, "required": []any{"y"}}, M{"type": "object", "properties": M{"a": M{"type": "string"}}, "required": []any{"a"}}},
+				"typed-then-props":    {M{"type": "object", "properties": M{"a": M{"type": "string"}}, "required": []any{"a"}}, M{"properties": M{"y": M{"type": "integer"}}, "required": []any{"y"}}},
+				"req-ref-req":         {M{"required": []any{"x"}}, M{"$ref": "#/$defs/Base"}, M{"required": []any{"a"}}},
+				"untyped-ref-untyped": {M{"properties": M{"y": M{"type": "integer"}}}, M{"$ref": "#/$defs/Base"}, M{"required": []any{"y"}}},
+			}
+			for _, bn := range core.SortedKeys(branchSets) {
+				for _, pos := range []string{"member", "required-member", "items"} {
+					node := M{"allOf": sgen.DeepCopy(branchSets[bn])}
+					schema := M{"type": "object", "$defs": M{"Base": base()}, "properties": M{"first": node, "n": M{"type": "string"}}}
+					wrap := func(v any) any { return M{"first": v} }
+					switch pos {
+					case "required-member":
+						schema["required"] = []any{"first"}
+					case "items":
+						schema["properties"] = M{"first": M{"type": "array", "items": node}}
+						wrap = func(v any) any { return M{"first": []any{v}} }
+					}
+					full := M{"a": "1", "x": "2", "y": 3}
+					docs := []any{wrap(full), wrap(M{"a": "1", "y": 3}), wrap(M{"x": "2", "y": 3}), wrap(M{"a": "1", "x": "2"}), wrap(M{})}
+					pcs = append(pcs, baseCase("c04-nested-compositions", schema, docs, "allOf-branch-order", bn, pos))
+				}
+			}
+		}
 		// compositions NESTED in compositions over the SAME definition (a member of an allOf type is again an allOf with
 		// that definition — directly, two levels down, or through a definition that sorts later): the inner position
 		// keeps every presence check, of the definition and of its own branch
